@@ -4,6 +4,7 @@ package main
 // each next command can be chosen from the actual shapes of the tensors created so far.
 
 import (
+	"fmt"
 	"math"
 )
 
@@ -194,4 +195,121 @@ func (g *Gen) patchArgs(ds []int) (src []int, idx [][2]int) {
 		}
 	}
 	return
+}
+
+// occasionally a tensor large enough to cross typical "fast path" thresholds (64, 256, 1024, 4096 elements)
+func (g *Gen) shapeBig() []int {
+	switch g.intn(6) {
+	case 0:
+		return []int{32, 33}
+	case 1:
+		return []int{1025, 2}
+	case 2:
+		return []int{2, 1030}
+	case 3:
+		return []int{4, 4, 4, 4, 5}
+	case 4:
+		return []int{9, 8}
+	}
+	return []int{70}
+}
+
+// values with a large common offset relative to their spread (cancellation-prone)
+func (g *Gen) valsOffset(n int) []float64 {
+	base := []float64{1e8, -7e9, 4e10, 2e8, 1e6}[g.intn(5)]
+	out := make([]float64, n)
+	for i := range out {
+		out[i] = base + float64(g.intn(9))
+	}
+	return out
+}
+
+// directVar checks Var/Std (whole tensor: dim < 0, or along dim) of tensor a against the defining two-pass
+// formula evaluated here (the specification the model is proved equal to), for tensors too large for the
+// model's expression trees.
+func (g *Gen) directVar(a int, std bool, dim int) {
+	t := g.env[a].t
+	ds, vals := readTensor(t)
+	spec := func(xs []float64) float64 {
+		n := float64(len(xs))
+		s := 0.
+		for _, x := range xs {
+			s = s + x
+		}
+		mean := s / n
+		q := 0.
+		for _, x := range xs {
+			q = q + math.Pow(x-mean, 2)
+		}
+		v := 0.
+		if n > 1 {
+			v = q / (n - 1)
+		}
+		if std {
+			return math.Sqrt(v)
+		}
+		return v
+	}
+	name := "Var"
+	if std {
+		name = "Std"
+	}
+	ev := &evaluator{}
+	if dim < 0 {
+		var got float64
+		if std {
+			got = t.Std()
+		} else {
+			got = t.Var()
+		}
+		if exp := spec(vals); !ev.same(got, exp, false) {
+			g.directs = append(g.directs, Mismatch{Cmd: a, What: name + "() of a large tensor differs from the two-pass definition",
+				Observed: fmt.Sprint(got), Expected: fmt.Sprint(exp)})
+		}
+		g.tag("direct-" + name)
+		return
+	}
+	var r interface {
+		Shape() []int
+		At(...int) (float64, error)
+	}
+	var err error
+	if std {
+		r, err = t.StdAlong(dim)
+	} else {
+		r, err = t.VarAlong(dim)
+	}
+	if err != nil {
+		g.directs = append(g.directs, Mismatch{Cmd: a, What: name + "Along returned an error on a valid dim", Observed: err.Error()})
+		return
+	}
+	// strides
+	inner := 1
+	for i := dim + 1; i < len(ds); i++ {
+		inner *= ds[i]
+	}
+	outer := prod(ds) / (inner * ds[dim])
+	rs := r.Shape()
+	idx := make([]int, len(rs))
+	for o := 0; o < outer; o++ {
+		for in := 0; in < inner; in++ {
+			fib := make([]float64, ds[dim])
+			for k := 0; k < ds[dim]; k++ {
+				fib[k] = vals[(o*ds[dim]+k)*inner+in]
+			}
+			// multi-index of (o, in) in the result shape
+			pos := o*inner + in
+			for i := len(rs) - 1; i >= 0; i-- {
+				idx[i] = pos % rs[i]
+				pos /= rs[i]
+			}
+			got, _ := r.At(idx...)
+			if exp := spec(fib); !ev.same(got, exp, false) {
+				g.directs = append(g.directs, Mismatch{Cmd: a, What: fmt.Sprintf("%sAlong(%d) of a large tensor differs from the two-pass definition at %v", name, dim, idx),
+					Observed: fmt.Sprint(got), Expected: fmt.Sprint(exp)})
+				return
+			}
+		}
+	}
+	g.tag("direct-" + name + "Along")
 }
